@@ -553,6 +553,37 @@ def gen_mixed_mss(rng):
     return {"cfg": cfg, "script": sc.s, "flavour": "mixed"}
 
 
+def bidi_cases():
+    """Deterministic family (always emitted): both directions at once.  One side sends a request (or only its FIN),
+    the segment is dropped once; the opposite direction keeps streaming a heartbeat every egress round for 14 rounds
+    (everything else is delivered in order), then answers and half-closes; both sides read to EOF.  The lost segment
+    must be retransmitted after retx_threshold passes although the peer keeps sending (C06)."""
+    out = []
+    for (th, v6, lost, swap) in [(3, False, "data", False), (2, False, "data", True), (3, True, "fin", False),
+                                 (2, False, "fin", True), (3, False, "data2", False)]:
+        cfg = full_cfg({"retx_threshold": th, "retx_max": 5, "send_cap": 64, "recv_cap": 64, "backlog": 4, "v6": v6})
+        sc = Script()
+        ls, cs, as_ = handshake(sc)
+        q, hb = (cs, as_) if not swap else (as_, cs)        # q: the side whose segment is lost; hb: the heartbeat side
+        if lost == "data":
+            sc.add(["write", q, [80, 73, 78, 71]], E, ["drop", 0])
+        elif lost == "data2":                               # second of two segments lost, first one delivered
+            sc.add(["write", q, [1, 2, 3]], E, ["flush"], ["write", q, [80, 73, 78, 71]], E, ["drop", 0])
+        else:
+            sc.add(["shutdown", q], E, ["drop", 0])
+        for i in range(14):
+            sc.add(["write", hb, pattern(100, 4 * i, 4)], E, ["flush"], ["read", q, 64], ["read", hb, 64])
+        sc.add(["write", hb, [68, 79, 78, 69]], ["shutdown", hb])
+        if lost != "fin":
+            sc.add(["shutdown", q])
+        for i in range(8):
+            sc.add(E, ["flush"], ["read", q, 64], ["read", hb, 64])
+        sc.add(["read", q, 64], ["read", hb, 64], ["rows", 0], ["rows", 1], ["netstat", 0], ["netstat", 1])
+        out.append({"cfg": cfg, "script": sc.s, "flavour": "bidi",
+                    "plan": {"w": q, "r": hb, "both": True, "fair_from": 0, "drops": 1, "ls": ls}})
+    return out
+
+
 def gen_live(rng):
     """Transfer with bounded faults (total drops < retx_max, overtaking by at most a few rounds)
     followed by a long fair phase in which both applications keep pumping and every packet is
